@@ -263,9 +263,6 @@ func BuildAction(n *wire.N, h Hist) (of.Action, error) {
 		}
 		for _, s := range present {
 			s.f()
-			if h.LenBetween {
-				a.Len()
-			}
 		}
 		return a, nil
 	}
